@@ -205,6 +205,14 @@ func c04Coverage(run *ev.Run, label string, S *decode.Value) {
 	}
 	run.Count("coverage:leaves", int64(len(leaves)))
 	run.Count("coverage:own-gap-fields", int64(len(gapsI)))
+	// (ii-a) an own gap field lies inside the scope's window (a gap computed in the wrong coordinates reaches
+	// outside the sub-decode and overlaps leaves of the enclosing decode: seed C04-D)
+	for _, g := range gapsI {
+		if g.a < winA || g.b > winB {
+			run.Violation("coverage:gap-outside-window", fmt.Sprintf("%s: scope %s: own gap field [%d,%d) reaches outside the scope's window [%d,%d)", label, valuePathStr(S), g.a, g.b, winA, winB), map[string]any{"case": label})
+			return
+		}
+	}
 	// (ii) no own gap overlaps another leaf of the scope
 	sort.Slice(fields, func(i, j int) bool { return fields[i].a < fields[j].a })
 	merged := mergeIvls(fields)
